@@ -290,8 +290,33 @@ def doAxRot (l : Line) : Option String := do
   | some [c, s] => some s!"ok r={s3 (axisRotation a c s v sh)}"
   | _ => none
 
+def showFan (g : Option (FanState Rat)) : String :=
+  match g with
+  | none => "err"
+  | some g => s!"{s2 g.d}|{s2 g.axis}|{s2 g.t}|{showRat g.rs}|{showRat g.rd}|{g.cb}"
+
+/-- `fangetitem s2d=… axis=none|a,b t=… rs= rd= cb=` → state after the constructor and state of the
+slice `geom[i:j]` -/
+def doFanGetitem (l : Line) : Option String := do
+  let tol2 : Rat := 1 / 10 ^ 20
+  let atol : Rat := 1 / 10 ^ 8
+  let s2d ← v2? l "s2d"
+  let t ← v2? l "t"
+  let rs ← l.rat? "rs"
+  let rd ← l.rat? "rd"
+  let cb ← l.bool? "cb"
+  let ax ← match l.get? "axis" with
+    | some "none" => some none
+    | _ => do let a ← v2? l "axis"; some (some a)
+  let g := fanCtor sqrtApprox tol2 atol s2d ax t rs rd cb
+  let sl := match g with
+    | none => none
+    | some g => fanGetitem sqrtApprox tol2 atol g
+  some s!"ok geom={showFan g} slice={showFan sl}"
+
 def handle (l : Line) : Option String :=
   match l.op with
+  | "fangetitem" => doFanGetitem l
   | "axrot" => doAxRot l
   | "tsys" => doTsys l
   | "fromto" => doFromTo l
